@@ -444,6 +444,9 @@ type c09Event struct {
 	TRef    string   `json:"tref"` // what decoding the encoding from a bytes.Reader gives (hash of value and re-encoding)
 	TSig    []string `json:"tsig"` // the same through each transport (plain reader / pieces of the given lengths)
 	TName   []string `json:"tname"`
+	RRef    string   `json:"rref"` // signature (stored state, derived counters, query answers, re-encoding) of the encoding decoded into a fresh value
+	RSig    []string `json:"rsig"` // ... decoded into a receiver that already holds another decoded value of the same type
+	RName   []string `json:"rname"`
 	AltB0   []string `json:"altb0"` // the same for each forced polygon format
 	AltB1   []string `json:"altb1"`
 	AltFp   []string `json:"altfp"` // fingerprints / answers after a round trip through each forced polygon format
@@ -597,11 +600,6 @@ func c09PolygonAnswers(d *c09Dump, p *s2.Polygon) {
 		d.u64(uint64(par + 1))
 		d.b(ok)
 		d.u64(uint64(p.LastDescendant(i) + 1))
-	}
-	if p.IsFull() {
-		// ContainsPoint of the full polygon dereferences a nil index (recorded under C15); the
-		// relation before = after is checked on everything else
-		return
 	}
 	for _, q := range c09Probes {
 		d.b(p.ContainsPoint(q))
@@ -1161,6 +1159,209 @@ func c09DecodeSig(typ string, r io.Reader) string {
 	return c09Hash(d.Bytes()) + "/" + c09Hash(enc)
 }
 
+// c09Prev picks the value a receiver holds before the value under test is decoded into it: a value
+// of the same type of the given class (empty, full, small, lossless, large, many, holes, other).
+func c09Prev(v c09Value, class string, seed int64, idx int) (c09Value, bool) {
+	same := func(kind string, from int) (c09Value, bool) {
+		for j := from; j < from+12; j++ {
+			if pv := c09Gen(kind, seed+1, j); pv.typ == v.typ {
+				return pv, true
+			}
+		}
+		return c09Value{}, false
+	}
+	switch v.typ {
+	case "Polygon":
+		switch class {
+		case "empty":
+			return c09Value{"Polygon", class, s2.PolygonFromLoops(nil)}, true
+		case "full":
+			return c09Value{"Polygon", class, s2.FullPolygon()}, true
+		case "small":
+			return same("centre-ring", idx)
+		case "lossless":
+			return same("corner-ring", idx)
+		case "large":
+			return same("faces", idx|3)
+		case "many":
+			return same("many-loops", idx)
+		case "holes":
+			return same("holes", idx)
+		}
+		return same("mixed", idx)
+	case "Loop":
+		switch class {
+		case "empty":
+			return c09Value{"Loop", class, s2.EmptyLoop()}, true
+		case "full":
+			return c09Value{"Loop", class, s2.FullLoop()}, true
+		case "large":
+			return same("long-stream", idx)
+		}
+		return same("loop", idx+2)
+	case "Polyline":
+		if class == "empty" {
+			return c09Value{"Polyline", class, &s2.Polyline{}}, true
+		}
+		if class == "large" {
+			return same("long-stream", idx)
+		}
+		return same("polyline", idx+1)
+	case "CellUnion":
+		if class == "empty" {
+			return c09Value{"CellUnion", class, &s2.CellUnion{}}, true
+		}
+		return same("cellunion", idx+1)
+	case "Cap":
+		switch class {
+		case "empty":
+			return c09Value{"Cap", class, s2.EmptyCap()}, true
+		case "full":
+			return c09Value{"Cap", class, s2.FullCap()}, true
+		}
+		return same("cap", idx+1)
+	case "Rect":
+		switch class {
+		case "empty":
+			return c09Value{"Rect", class, s2.EmptyRect()}, true
+		case "full":
+			return c09Value{"Rect", class, s2.FullRect()}, true
+		}
+		return same("rect", idx+1)
+	case "Point":
+		return same("point", idx+1)
+	case "CellID", "Cell":
+		return same("cellid", idx+1)
+	}
+	return c09Value{}, false
+}
+
+// c09ReceiverSig decodes prev (if any) and then enc into ONE receiver and returns a signature of
+// the value the receiver then holds: stored state, derived counters, the query battery and the
+// re-encoding.  A panic of the library is part of the signature (the value is not touched again:
+// the panic may have happened with the index lock held).
+func c09ReceiverSig(typ string, prev, enc []byte) (sig string) {
+	defer func() {
+		if r := recover(); r != nil {
+			msg := fmt.Sprint(r)
+			if len(msg) > 120 {
+				msg = msg[:120]
+			}
+			sig = "PANIC(" + msg + ")"
+		}
+	}()
+	var d c09Dump
+	dec := func(f func(io.Reader) error) bool {
+		if prev != nil {
+			if err := f(bytes.NewReader(prev)); err != nil {
+				sig = "ERR(previous value): " + err.Error()
+				return false
+			}
+		}
+		if err := f(bytes.NewReader(enc)); err != nil {
+			sig = "ERR"
+			return false
+		}
+		return true
+	}
+	var val any
+	switch typ {
+	case "Polygon":
+		q := new(s2.Polygon)
+		if !dec(q.Decode) {
+			return sig
+		}
+		c09PolygonFp(&d, q)
+		st := s2.VerifPolygonState(q)
+		d.u64(uint64(st.NumEdges))
+		d.u64(uint64(q.NumEdges()))
+		for _, ce := range st.CumulativeEdges {
+			d.u64(uint64(ce))
+		}
+		d.WriteString(c09BoundFp(q, true))
+		c09PolygonAnswers(&d, q)
+		val = q
+	case "Loop":
+		q := new(s2.Loop)
+		if !dec(q.Decode) {
+			return sig
+		}
+		c09LoopFp(&d, q)
+		st := s2.VerifLoopState(q)
+		for _, r := range []s2.Rect{st.Bound, st.SubregionBound} {
+			d.f(r.Lat.Lo)
+			d.f(r.Lat.Hi)
+			d.f(r.Lng.Lo)
+			d.f(r.Lng.Hi)
+		}
+		c09LoopAnswers(&d, q)
+		val = q
+	case "Polyline":
+		q := new(s2.Polyline)
+		if !dec(q.Decode) {
+			return sig
+		}
+		d.u64(uint64(len(*q)))
+		for _, v := range *q {
+			d.pt(v)
+		}
+		d.u64(uint64(q.NumEdges()))
+		val = q
+	case "CellUnion":
+		q := new(s2.CellUnion)
+		if !dec(q.Decode) {
+			return sig
+		}
+		d.u64(uint64(len(*q)))
+		for _, id := range *q {
+			d.u64(uint64(id))
+		}
+		val = q
+	case "Point":
+		var q s2.Point
+		if !dec(q.Decode) {
+			return sig
+		}
+		val = q
+	case "Cap":
+		var q s2.Cap
+		if !dec(q.Decode) {
+			return sig
+		}
+		d.f(q.Height())
+		val = q
+	case "Rect":
+		var q s2.Rect
+		if !dec(q.Decode) {
+			return sig
+		}
+		val = q
+	case "CellID":
+		var q s2.CellID
+		if !dec(q.Decode) {
+			return sig
+		}
+		val = q
+	case "Cell":
+		var q s2.Cell
+		if !dec(q.Decode) {
+			return sig
+		}
+		for k := 0; k < 4; k++ {
+			d.pt(q.Vertex(k))
+		}
+		d.u64(uint64(q.Level()))
+		val = q
+	default:
+		panic("c09ReceiverSig: " + typ)
+	}
+	out, err := c09EncodeAny(val)
+	if err != nil {
+		return "ERR(re-encode)"
+	}
+	return c09Hash(d.Bytes()) + "/" + c09Hash(out)
+}
+
 var c09TraceMu sync.Mutex
 
 func opRoundTrip(raw json.RawMessage, o *Out) {
@@ -1173,6 +1374,7 @@ func opRoundTrip(raw json.RawMessage, o *Out) {
 			Mode string `json:"mode"`
 			Pat  []int  `json:"pat"`
 		} `json:"tp"`
+		Rc []string `json:"rc"`
 	}
 	if err := json.Unmarshal(raw, &c); err != nil {
 		panic(err)
@@ -1203,6 +1405,23 @@ func opRoundTrip(raw json.RawMessage, o *Out) {
 			o.Count("transport_encodings_longer_than_8KB")
 		}
 		o.CountN("transport_decodes", len(c.Tp))
+		// receivers: Decode is a function of the bytes alone, not of what the receiver held before
+		if len(c.Rc) > 0 {
+			ev.RRef = c09ReceiverSig(v.typ, nil, enc)
+		}
+		for _, cl := range c.Rc {
+			prev, ok := c09Prev(v, cl, c.Seed, c.I)
+			if !ok {
+				continue
+			}
+			penc, err := c09EncodeAny(prev.val)
+			if err != nil {
+				continue
+			}
+			ev.RName = append(ev.RName, cl)
+			ev.RSig = append(ev.RSig, c09ReceiverSig(v.typ, penc, enc))
+			o.Count("receiver_decodes")
+		}
 	}
 	o.Count("roundtrip_" + v.typ)
 	o.Count("roundtrip_fmt_" + ev.Fmt)
@@ -1241,6 +1460,12 @@ func opRoundTrip(raw json.RawMessage, o *Out) {
 				}
 				o.Fail("roundtrip/"+v.typ+"/transport/"+mode, "%s: decoding the same encoding through transport %s gives %s, from a bytes.Reader %s",
 					in, ev.TName[i], ev.TSig[i], ev.TRef)
+			}
+		}
+		for i := range ev.RSig {
+			if ev.RSig[i] != ev.RRef {
+				o.Fail("roundtrip/"+v.typ+"/receiver/"+ev.RName[i], "%s: decoding the encoding into a receiver that holds a previously decoded %s value gives %s, into a fresh value %s",
+					in, ev.RName[i], ev.RSig[i], ev.RRef)
 			}
 		}
 		if ev.Bfp0 != ev.Bfp1 {
@@ -1316,7 +1541,7 @@ type c09Codec struct {
 
 // c09Observe performs the round trip and records what was seen (no judgement here).
 func c09Observe(v c09Value) (ev c09Event) {
-	ev = c09Event{Ev: "RoundTrip", Type: v.typ, Kind: v.kind, Fmt: "-", AltFp: []string{}, AltAns: []string{}, AltName: []string{}, AltB0: []string{}, AltB1: []string{}, TSig: []string{}, TName: []string{}, Keys0: [][3]int{}, Keys1: [][3]int{}}
+	ev = c09Event{Ev: "RoundTrip", Type: v.typ, Kind: v.kind, Fmt: "-", AltFp: []string{}, AltAns: []string{}, AltName: []string{}, AltB0: []string{}, AltB1: []string{}, TSig: []string{}, TName: []string{}, RSig: []string{}, RName: []string{}, Keys0: [][3]int{}, Keys1: [][3]int{}}
 	fail := func(format string, a ...any) c09Event {
 		ev.Err = fmt.Sprintf(format, a...)
 		return ev
